@@ -4,9 +4,13 @@ import SpoxModel.Props.C19
 #print axioms C19.generator_consistent
 #print axioms C19.modules_covered
 #print axioms C19.sites_good
+#print axioms C19.callgraph_safe
+#print axioms C19.no_callback_reachable
 #print axioms C19.args_prescribed_if
 #print axioms C19.args_prescribed_sequence_map
 #print axioms C19.args_prescribed_scan_partial
+#print axioms C19.scan_args_ignore_attributes
+#print axioms C19.args_prescribed_scan_iff
 #print axioms C19.args_prescribed_loop_partial
 #print axioms C19.loop_partial_vs_onnx
 #print axioms C19.loop_scalar_counterexample
